@@ -644,7 +644,9 @@ func main() {
 		addF(fcaseJ{pats, ws, ev})
 	}
 	m.Counts["fcases"] = len(fc)
+	ss.shardSize = 2000
 	ss.write("fcases", "fcase", "fcase_model_ok", "fcase_prop_ok", fc)
+	ss.shardSize = m.ShardSize
 	writeJSONL(*out, "fcases.jsonl", fj)
 
 	// ---------------------------------------------------------------- (g) Response.Write behind the flush writer
@@ -661,7 +663,7 @@ func main() {
 	}
 	bodyPieces := []string{"hello", "x", "data: 1\n\n", "data: 2\r\n\r\n", "a\rb", "\r", "\n", "0123456789", "", "\r\n"}
 	framings := map[string]int{}
-	nG := 600
+	nG := 400
 	if thorough {
 		nG = 10000
 	}
